@@ -308,3 +308,109 @@ def g_sfb2d(mode, nf, as_lists=False):
     callees['dwt.lowlevel:prep_filt_sfb2d'] = CD.prep_filt_sfb2d_contract
     return verify.verify_function('sfb2d[%s,%d%s]' % (mode, nf, ',lists' if as_lists else ''), 'dwt.lowlevel', 'sfb2d',
                                   mk, BASE + [Lr2 >= 1], CD.sfb2d_contract, callees, SIZES + [Lr2])
+
+
+# ---------------------------------------------------------------------------
+# back-propagation: real forward + real backward, kernel transposition
+# ---------------------------------------------------------------------------
+from . import adjoint as ADJ
+
+
+def g_adjoint(cls, mode, needs, region=None, canary=False):
+    """cls: AFB1D | SFB1D | AFB2D | SFB2D.  needs: tuple of bools for the data
+    inputs (x) or (low, high).  region: None | 'even' | 'odd' | 'interior'"""
+    one_d = cls.endswith('1D')
+    ana = cls.startswith('AFB')
+    mv = [Bn, C, N, H, W, L2, Lr2]
+    base = [Bn >= 1, C >= 1, N >= 1, H >= 1, W >= 1, L2 >= 1, Lr2 >= 1]
+    sp = [N] if one_d else [H, W]
+    if region == 'even':
+        base += [d % 2 == 0 for d in sp]
+    elif region == 'odd':
+        base += [z3.Or(*[d % 2 == 1 for d in sp])]
+    per = mode in ('per', 'periodization')
+    Ls = [L] if one_d else [L, Lr]
+    for d, Lx in zip(sp, Ls):
+        if ana:
+            if per:
+                base.append(d + d % 2 >= Lx)          # outside known finding F1
+        else:
+            if per:
+                base.append(2 * d >= Lx)
+            else:
+                base.append(2 * d - Lx + 2 >= 1)      # synthesis output non-empty
+    oid = '%s.backward[%s,needs=%s%s]' % (cls, mode, ''.join('T' if b else 'F' for b in needs),
+                                          ',region=' + region if region else '')
+
+    def run():
+        it = Interp(contracts=ONE_LEVEL_CALLEES)
+        if one_d:
+            filt = [CD.filt_tensor('f0', (1, 1, L), 2), CD.filt_tensor('f1', (1, 1, L), 2)]
+            shp = (Bn, C, N)
+        else:
+            filt = _filts2d('f')
+            shp = (Bn, C, H, W)
+        if ana:
+            data = [CD.data_tensor('x', shp, requires_grad=needs[0])]
+        elif one_d:
+            data = [CD.data_tensor('lo', shp, requires_grad=needs[0]), CD.data_tensor('hi', shp, requires_grad=needs[1])]
+        else:
+            data = [CD.data_tensor('ll', shp, requires_grad=needs[0]),
+                    CD.data_tensor('hs', (Bn, C, 3, H, W), requires_grad=needs[1])]
+        args = data + filt + [CD.MODE2INT[mode]]
+        fc = _fctx(tuple(needs) + (False,) * (len(args) - len(needs)))
+        out = it.call('dwt.lowlevel', cls + '.forward', [fc] + args, {})
+        ys = list(out) if isinstance(out, tuple) else [out]
+        if canary:      # deliberately wrong forward kernel (shifted by one sample): must be refuted
+            y0s = ys[0].snap()
+            ys[0] = fresh_like(ys[0].shape, lambda idx: y0s(list(idx[:-1]) + [simp(I(idx[-1]) + 1)]), ys[0])
+        gs_ = [CD.data_tensor('g%d' % k, y.shape) for k, y in enumerate(ys)]
+        grads = it.call('dwt.lowlevel', cls + '.backward', [fc] + gs_, {})
+        return data, ys, gs_, grads
+    obs = []
+    info = {'paths': 0, 'raise_paths': 0}
+    for k, (c, res) in enumerate(explore(run, base)):
+        CUR.ctx = c
+        if c.solver.check() == z3.unsat:
+            continue
+        pid = '%s/path%d' % (oid, k)
+        info['paths'] += 1
+        if res[0] == 'raise':
+            r = res[1]
+            info['raise_paths'] += 1
+            if mode == 'reflect' and 'Padding size' in r.msg:
+                obs.append(Ob(pid + '/raises-as-permitted(reflect)', 'POST', 'proved', 'path', 0))
+            else:
+                m = c.solver.model()
+                obs.append(Ob(pid + '/unexpected-raise', 'POST', 'refuted', 'path', 0,
+                              {'what': '%s: %s' % (r.kind, r.msg),
+                               'model': {str(v): str(m.eval(v, model_completion=True)) for v in mv}}))
+            continue
+        data, ys, gs_, grads = res[1]
+        if not isinstance(grads, tuple):
+            obs.append(Ob(pid + '/backward-returns-tuple', 'POST', 'refuted', 'structural', 0))
+            continue
+        for slot, (d, need) in enumerate(zip(data, needs)):
+            g = grads[slot]
+            nm = d.base.owner.split(':')[1]
+            if not need:
+                continue
+            if g is None:
+                obs.append(Ob('%s/slot%d[%s]-is-None-although-it-requires-grad' % (pid, slot, nm), 'POST', 'refuted',
+                              'structural', 0, {'model': {}, 'what': 'backward returns None for an input that requires grad'}))
+                continue
+            obs.append(solve.prove('%s/slot%d[%s]/shape' % (pid, slot, nm), 'POST', c.pc,
+                                   z3.And(g.ndim == d.ndim, *[I(a) == I(b) for a, b in zip(g.shape, d.shape)]), mv))
+            extra = []
+            if region == 'interior':
+                # positions that no boundary extension can touch
+                for ax, Lx in ((d.ndim - 1, L if one_d else Lr), (d.ndim - 2, L)) if not one_d else ((d.ndim - 1, L),):
+                    v = z3.Int('%s@%d' % (nm, ax))
+                    extra += [v >= Lx, v < I(d.shape[ax]) - Lx]
+            obs += ADJ.adjoint_obs('%s/slot%d[%s]' % (pid, slot, nm), ys, ['g%d' % q for q in range(len(ys))], g, nm,
+                                   c.pc, mv, extra_ranges=extra)
+        for slot in range(len(data), len(grads)):
+            if grads[slot] is not None:
+                obs.append(Ob('%s/slot%d-filter-gradient-not-None' % (pid, slot), 'POST', 'refuted', 'structural', 0))
+        obs += solve.safety_obligations(pid, c, mv)
+    return obs, info
